@@ -1,6 +1,7 @@
 import DashLive.Gen.Arith
 import DashLive.Model.Segments
 import DashLive.Model.IsoText
+import Mathlib.Tactic.Ring
 /-!
 # Translated arithmetic = hand-written model
 
@@ -22,7 +23,12 @@ theorem fdiv_cast (a b : Nat) : Int.fdiv (a : Int) (b : Int) = ((a / b : Nat) : 
 theorem tie_refDuration (refDur refTs ts : Nat) :
     Gen.Arith.mediaDurationUsingTimescale refDur refTs ts = (Segments.refDuration refDur refTs ts : Nat) := by
   unfold Gen.Arith.mediaDurationUsingTimescale Segments.refDuration
-  rw [← Int.natCast_mul, fdiv_cast]
+  -- robust against a reordering of the product in the source
+  have h : ∀ x : Int, x = ((refDur * ts : Nat) : Int) → Int.fdiv x (refTs : Int) = ((refDur * ts / refTs : Nat) : Int) := by
+    intro x hx; rw [hx, fdiv_cast]
+  apply h
+  push_cast
+  ring
 
 /-- `timecode_to_timedelta` = C19's model -/
 theorem tie_timecodeToTimedelta (tc ts : Int) :
